@@ -21,15 +21,31 @@ def parse(rel):
     return ast.parse(src(rel))
 
 
+def settle(path, body):
+    """Write the generated text when it differs from the file.  A compiled file is only trusted when it was built from this very text: the hash
+    of the text is kept beside the file, and when it differs (the .v was put back by a copy that preserved an old modification time, say)
+    the compiled file is removed so that make rebuilds it whatever the time stamps say."""
+    old = open(path, encoding="utf8").read() if os.path.exists(path) else None
+    if old != body:
+        open(path, "w", encoding="utf8").write(body)
+    side = os.path.join(os.path.dirname(path), "." + os.path.basename(path) + ".sha")
+    h = hashlib.sha256(body.encode("utf8")).hexdigest()
+    was = open(side).read().strip() if os.path.exists(side) else None
+    if was != h:
+        for ext in (".vo", ".vos", ".vok"):
+            try: os.remove(path[:-2] + ext)
+            except OSError: pass
+        open(side, "w").write(h)
+    return old
+
+
 def write(name, body, status, sources):
     path = os.path.join(OUT, name)
     os.makedirs(OUT, exist_ok=True)
     h = hashlib.sha256()
     for s in sources:
         h.update(src(s).encode("utf8"))
-    old = open(path, encoding="utf8").read() if os.path.exists(path) else None
-    if old != body:
-        open(path, "w", encoding="utf8").write(body)
+    old = settle(path, body)
     status[name] = {"ok": True, "reason": "", "changed": old is not None and old != body, "source_sha256": h.hexdigest()[:16], "sources": sources}
 
 
@@ -37,9 +53,7 @@ def fail(name, reason, status, sources):
     path = os.path.join(OUT, name)
     os.makedirs(OUT, exist_ok=True)
     body = "(* fail-closed: %s *)\nTranslation failed closed.\n" % reason.replace("*)", "* )")[:500]
-    old = open(path, encoding="utf8").read() if os.path.exists(path) else None
-    if old != body:
-        open(path, "w", encoding="utf8").write(body)
+    old = settle(path, body)
     status[name] = {"ok": False, "reason": reason[:400], "changed": old != body, "sources": sources}
 
 
